@@ -191,6 +191,24 @@ def target(value, label):
             pass
 
 
+def is_seq(x, n):
+    """Is x a sequence of n results?  (The statements fix values, not the container: tuple, list and 1-D array all qualify.)"""
+    try:
+        return not isinstance(x, (str, bytes, dict)) and len(x) == n
+    except TypeError:
+        return False
+
+
+def pub_attrs(obj):
+    """Instance attributes of obj as a dict, whether it keeps them in __dict__ or in __slots__."""
+    d = dict(getattr(obj, "__dict__", {}) or {})
+    for klass in type(obj).__mro__:
+        for name in getattr(klass, "__slots__", ()) or ():
+            if isinstance(name, str) and name not in ("__dict__", "__weakref__") and hasattr(obj, name):
+                d.setdefault(name, getattr(obj, name))
+    return d
+
+
 class Stats(object):
     def __init__(self):
         self.evaluations = 0
